@@ -235,17 +235,40 @@ def oracle_formats(case):
         for a, n in zip(atoms, nums):
             a["resseq"] = n
         info["negative-numbers"] = min(nums) < 0
+    request = None
+    if case.get("ensemble"):
+        # the molecule as one model of an ensemble: the other models are the same atoms blown up by 25 % about the
+        # centroid (hardly any interaction survives that), the native copy sits at the drawn position and is the model
+        # that is asked for - in both formats
+        n_models, where = case["ensemble"]
+        where = where % n_models
+        P = np.array([[a["x"], a["y"], a["z"]] for a in atoms])
+        c = P.mean(axis=0)
+        Q = (P - c) * 1.25 + c
+        if Q.min() < -999.0 or Q.max() > 9999.0 or len(atoms) * n_models > 99999:
+            info["skipped"] = True
+            return []
+        blown = [dict(a, x=round(float(q[0]), 3), y=round(float(q[1]), 3), z=round(float(q[2]), 3)) for a, q in zip(atoms, Q)]
+        numbers = case.get("model_numbers") or list(range(1, n_models + 1))
+        numbers = (numbers + [max(numbers) + 1 + k for k in range(n_models)])[:n_models]
+        ens = []
+        for k in range(n_models):
+            ens += [dict(a, model=numbers[k]) for a in (atoms if k == where else blown)]
+        atoms = ens
+        request = numbers[where]
+        info["ensemble"] = True
+        info["later-model-requested"] = where > 0
     os.makedirs(WORK_DIR, exist_ok=True)
     base = os.path.join(WORK_DIR, f"c05_{os.getpid()}")
     results = {}
     structs = {}
     try:
-        for ext, text in (("pdb", atomtab.emit_pdb(atoms)), ("cif", atomtab.emit_cif(atoms, case.get("null", "?")))):
+        for ext, text in (("pdb", atomtab.emit_pdb(atoms, always_model=bool(request))), ("cif", atomtab.emit_cif(atoms, case.get("null", "?")))):
             p = f"{base}.{ext}"
             with open(p, "w") as f:
                 f.write(text)
             with open(p) as f:
-                structs[ext] = read_3d_structure(f, None)
+                structs[ext] = read_3d_structure(f, request)
             results[ext] = {fg: normalise(annotate(structs[ext], fg)) for fg in (False, True)}
     finally:
         for ext in ("pdb", "cif"):
@@ -378,6 +401,8 @@ def classify(case):
             labs.append("coordinate<=-100-or>=1000")
         if info.get("negative-numbers"):
             labs.append("formats-with-negative-author-numbers")
+        if info.get("ensemble"):
+            labs.append("formats-of-an-ensemble-" + ("later" if info.get("later-model-requested") else "first") + "-model-requested")
     if info.get("undecided"):
         labs.append("undecided-margin")
     if info.get("skipped"):
@@ -412,7 +437,9 @@ def st_formats(files):
     comp = st.sampled_from([0.0, 0.0, -150.0, -300.0, -700.0, 300.0, 900.0, 1500.0])
     return st.fixed_dictionaries({"kind": st.just("formats"), "file": st.sampled_from(files), "null": st.sampled_from(["?", "."]),
                                   "rot": st.one_of(st.none(), st.integers(0, 23)), "shift": st.lists(comp, min_size=3, max_size=3),
-                                  "offset": st.sampled_from([0, 0, -210, -500, -60, 1000])})
+                                  "offset": st.sampled_from([0, 0, -210, -500, -60, 1000]),
+                                  "ensemble": st.one_of(st.none(), st.tuples(st.integers(2, 3), st.integers(0, 2)).map(list)),
+                                  "model_numbers": st.sampled_from([None, None, [3, 1, 2], [2, 5, 7]])})
 
 
 def st_altloc(files):
